@@ -237,6 +237,36 @@ def correspondence(ctx, enabled, quick):
                 add(f'LMM {n} {fl(gam)} {fl(fwd0)} {fl(taus)} {fl(sgn * gm[ip, :n - 1])}', 'lmm_simulate_fwds_1f', ref,
                     dict(fn='lmm_simulate_fwds_1f', num_fwds=n, num_paths=npth, fwd0=fwd0.tolist(), gammas=gam.tolist(), taus=taus.tolist(), use_sobol=0, seed=seed,
                          path=ip + (npth // 2) * a_))
+        # ---- lmm_cap_flr_pricer (as repaired) on these paths
+        for is_cap in (1, 0):
+            kk = float(fwd0.mean())
+            capv = safe_cap(ctx, L, n, npth, kk, fwd0, F, taus, is_cap, f'lmm_simulate_fwds_1f(num_fwds, {npth}, 0, fwd0, {gam.tolist()}, taus, 0, {seed})')
+            if capv is None:
+                continue
+            diag_ = np.stack([F[:, j_, j_] for j_ in range(n)], axis=1)
+            add(f'CAPF {is_cap} {n} {fl([kk, fwd0[0]])} {fl(taus)} {fl(diag_)}', 'lmm_cap_flr_pricer', capv,
+                dict(fn='lmm_cap_flr_pricer', num_fwds=n, num_paths=npth, K=kk, fwd0=fwd0.tolist(), taus=taus.tolist(), gammas=gam.tolist(), is_cap=is_cap,
+                     fwds=f'lmm_simulate_fwds_1f(seed={seed})'))
+        # ---- EquityAsianOption fast kernel (as repaired), inside and outside the averaging period
+        from financepy.products.equity.equity_asian_option import _value_mc_fast_numba
+        for inside in (False, True):
+            seed = seed_()
+            tau_ = rng.uniform(0.5, 1.5)
+            t_ = rng.uniform(0.2, 0.9) * tau_ if inside else tau_ + rng.uniform(0.05, 0.5)
+            t0_ = t_ - tau_
+            nobs, npth_ = rng.randint(2, 14), rng.choice([2, 7, 40])
+            s_, r_, q_, v_ = rng.uniform(50, 150), rng.uniform(0, 0.08), rng.uniform(0, 0.04), rng.uniform(0.1, 0.5)
+            k_, acc_, ot = s_ * rng.uniform(0.9, 1.1), s_ * rng.uniform(0.9, 1.1), rng.choice([1, 2])
+            val = float(_value_mc_fast_numba(t0_, t_, tau_, k_, nobs, ot, s_, r_, q_, v_, npth_, seed, acc_))
+            n_adj = int(nobs * t_ / tau_ + 0.5) + 1 if t0_ < 0 else nobs
+            np.random.seed(seed)
+            g0 = np.array([np.random.normal() for _ in range(npth_)])
+            gobs = np.array([np.random.normal(0.0, 1.0, size=npth_) for _ in range(n_adj)]).reshape(n_adj, npth_)
+            draws = np.concatenate([g0[:, None], gobs.T], axis=1)
+            add(f'ASN {1 if ot == 1 else 0} {nobs} {fl([t0_, t_, tau_, k_, acc_, s_, r_, q_, v_])} {fl(draws)}',
+                '_value_mc_fast_numba' + ('.in-period' if inside else ''), [val],
+                dict(fn='equity_asian_option._value_mc_fast_numba', t0=t0_, t=t_, tau=tau_, k=k_, n=nobs, option_type=ot, stock_price=s_, interest_rate=r_,
+                     dividend_yield=q_, volatility=v_, num_paths=npth_, seed=seed, accrued_average=acc_))
         # ---- default time
         m = rng.randint(2, 7)
         ts = np.concatenate([[0.0], np.cumsum([rng.uniform(0.3, 2.0) for _ in range(m)])])
@@ -250,7 +280,7 @@ def correspondence(ctx, enabled, quick):
     for comp, impl, cs in checks:
         c = comps.setdefault(comp, [0, 0])
         c[0] += 1
-        c[1] += 1 if impl.size > 2 or comp.startswith(('_value', 'vasicek.zero', 'cir.zero', 'uniform')) else 0
+        c[1] += 1 if impl.size > 2 or comp.startswith(('_value', 'vasicek.zero', 'cir.zero', 'uniform', 'lmm_cap')) else 0
     for comp, (n, nt) in sorted(comps.items()):
         ctx.count('model:' + comp, n, nt)
     if not enabled:
@@ -751,8 +781,6 @@ def product_stats(ctx, st, quick):
                           reference='independent simulation: arithmetic average of the n equally spaced observations after the start of averaging'
                                     + (' (remaining observations int(n*t/tau+0.5)+1 on (0,t], strike and notional rescaled for the accrued average)' if in_period else ''))
                 fid = None
-                if in_period and meth in ('_value_mc_fast', 'value_mc'):
-                    fid = 'C19/asian-fast-mc-stale-dt-in-averaging-period'
                 if meth == 'value_mc':
                     # classifier of C19/asian-cv-continuous-geometric-control: the deviation is the difference between the
                     # continuous-averaging geometric closed form used as control and the discretely observed geometric payoff
@@ -947,6 +975,17 @@ def heston_stats(ctx, st, quick):
 
 
 # ================================================================================================ LMM
+def safe_cap(ctx, L, n, npth, K, fwd0, F, taus, is_cap, note=''):
+    """lmm_cap_flr_pricer, with any exception of the implementation reported as a failing input"""
+    try:
+        return L.lmm_cap_flr_pricer(n, npth, K, fwd0, F, taus, is_cap)
+    except Exception as e:  # noqa: BLE001
+        ctx.violation(f'lmm_cap_flr_pricer raises {type(e).__name__} ({e})',
+                      dict(fn='lmm_cap_flr_pricer', num_fwds=n, num_paths=npth, K=K, fwd0=np.asarray(fwd0).tolist(), taus=np.asarray(taus).tolist(), is_cap=is_cap,
+                           fwds=note), clause='callable')
+        return None
+
+
 def black_caplet(f, k, var, tau, df):
     from scipy.stats import norm
     sd = math.sqrt(var)
@@ -1027,21 +1066,117 @@ def lmm_stats(ctx, st, quick):
             if not abs((pay - rec) - float(sw.mean())) <= 1e-9:
                 ctx.violation('lmm_swaption_pricer: payer - receiver is not the forward swap value on the same paths',
                               dict(cs, a=1, b=b_, strike=K, payer=pay, receiver=rec, swap_from_paths=float(sw.mean())), clause='swaption-parity')
-            # cap/floor pricer (known finding: divides by an uninitialised discount factor)
-            try:
-                capv = L.lmm_cap_flr_pricer(n, npth, K, fwd0, F, taus, 1)
-                for j in range(1, min(len(capv), n - 1)):
-                    var = sum(varfn(j, i) * taus[i] for i in range(j))
-                    ref = black_caplet(float(fwd0[j]), K, var, float(taus[j]), float(P0[j]))
-                    x = taus[j] * np.maximum(diag[:, j] - K, 0.0) / B[:, j]
-                    if not abs(float(capv[j]) - float(x.mean())) <= 1e-6 * ref + 1e-12:
-                        ctx.violation('lmm_cap_flr_pricer: caplet differs from the caplet computed from the same paths',
-                                      dict(cs, caplet_index=j, strike=K, returned=float(capv[j]), from_paths=float(x.mean()), black=ref), clause='caplet-vs-black')
+            # cap/floor pricer on these paths = the caplets recomputed from the same paths (any exception is a violation)
+            for is_cap in (1, 0):
+                capv = safe_cap(ctx, L, n, npth, K, fwd0, F, taus, is_cap, f'{name}, seed {seed}')
+                if capv is None:
+                    break
+                for j in range(0, n):
+                    pay_ = np.maximum(diag[:, j] - K, 0.0) if is_cap else np.maximum(K - diag[:, j], 0.0)
+                    mine = float((taus[j] * pay_ / B[:, j]).mean())
+                    if not (len(capv) == n and abs(float(capv[j]) - mine) <= 1e-9 * max(abs(mine), 1e-6) + 1e-12):
+                        ctx.violation('lmm_cap_flr_pricer: cap/floorlet differs from the one computed from the same paths with the spot numeraire',
+                                      dict(cs, fn='lmm_cap_flr_pricer', caplet_index=j, K=K, is_cap=is_cap, returned=[float(x) for x in capv], from_paths=mine),
+                                      clause='caplet-vs-black')
                         break
-            except ZeroDivisionError as e:
-                ctx.violation(f'lmm_cap_flr_pricer raises ZeroDivisionError ({e}): numeraire[0] = 1.0 / df[0] with df never initialised',
-                              dict(cs, fn='lmm_cap_flr_pricer', K=K, is_cap=1), finding='C19/lmm-cap-floor-pricer-divzero', clause='callable')
+    # ---- lmm_cap_flr_pricer vs Black over independent seeds (caplets and, by the same formula, floorlets)
+    from scipy.stats import norm
+    M = 24 if quick else 48
+    sds = seeds_of(rng, M)
+    caps, flrs = [], []
+    for sd in sds:
+        F = L.lmm_simulate_fwds_1f(n, 4000, 0, fwd0, gam, taus, 0, sd)
+        c_, f_ = safe_cap(ctx, L, n, 4000, K, fwd0, F, taus, 1, f'lmm_simulate_fwds_1f seed {sd}'), None
+        if c_ is not None:
+            f_ = safe_cap(ctx, L, n, 4000, K, fwd0, F, taus, 0, f'lmm_simulate_fwds_1f seed {sd}')
+        if c_ is None or f_ is None:
+            caps = None
+            break
+        caps.append(c_)
+        flrs.append(f_)
+        n_eval += 3
+    if caps is not None:
+        caps, flrs = np.array(caps), np.array(flrs)
+    for j in (range(0, n) if caps is not None else []):
+        cs = dict(fn='lmm_cap_flr_pricer', num_fwds=n, num_paths=4000, K=K, fwd0=fwd0.tolist(), taus=taus.tolist(), gammas=gam.tolist(), caplet_index=j,
+                  fwds='lmm_simulate_fwds_1f(num_fwds, 4000, 0, fwd0, gammas, taus, 0, seed)', seeds=sds[:4])
+        if j == 0:
+            refc = float(taus[0] * max(fwd0[0] - K, 0.0) * P0[0])
+            reff = float(taus[0] * max(K - fwd0[0], 0.0) * P0[0])
+            bias_c = bias_f = 1e-12
+        else:
+            var = sum(gam[j - i] ** 2 * taus[i] for i in range(j))
+            refc = black_caplet(float(fwd0[j]), K, var, float(taus[j]), float(P0[j]))
+            reff = refc - float(P0[j] * taus[j] * (fwd0[j] - K))
+            bias_c, bias_f = 0.02 * refc, 0.02 * reff
+        st.ttest('lmm.cap_flr_pricer.cap', 'lmm_cap_flr_pricer: caplet mean over seeds is not within bound of Black', caps[:, j], refc, dict(cs, is_cap=1, black=refc),
+                 bias=bias_c, clause='caplet-vs-black')
+        st.ttest('lmm.cap_flr_pricer.floor', 'lmm_cap_flr_pricer: floorlet mean over seeds is not within bound of Black', flrs[:, j], reff, dict(cs, is_cap=0, black=reff),
+                 bias=bias_f, clause='caplet-vs-black')
+    # ---- IborLMMProducts: its own simulators, and value_cap_floor on paths installed by hand
+    lmm_product(ctx, rng, L)
     ctx.count('lmm', n_eval, n_eval, sample={'fn': 'lmm_simulate_fwds_1f', 'num_fwds': n, 'num_paths': npth})
+
+
+def lmm_product(ctx, rng, L):
+    from financepy.utils.date import Date
+    from financepy.utils.frequency import FrequencyTypes
+    from financepy.utils.day_count import DayCountTypes
+    from financepy.utils.error import FinError
+    from financepy.utils.global_types import FinCapFloorTypes
+    from financepy.market.volatility.ibor_cap_vol_curve import IborCapVolCurve
+    from financepy.products.rates.ibor_lmm_products import IborLMMProducts
+    vd = mkdates()
+    md = vd.add_tenor('3Y')
+    dc = flat(vd, rng.uniform(0.02, 0.06))
+    sig = rng.uniform(0.15, 0.25)
+    vc = IborCapVolCurve(vd, [vd] + [vd.add_tenor(f'{i}Y') for i in (1, 2, 3, 4)], np.array([0.0, sig, sig, sig, sig]), DayCountTypes.ACT_365F)
+    prod = IborLMMProducts(vd, md, FrequencyTypes.SEMI_ANNUAL)
+    seed = rng.randint(1, 2 ** 31 - 1)
+    cs = dict(fn='IborLMMProducts.simulate_1f', settle='20-MAR-2024', maturity='3Y', float_freq='SEMI_ANNUAL', flat_rate_cc=float(-math.log(dc.df(md)) / ((md - vd) / 365.0)),
+              caplet_vol=sig, num_paths=2000, use_sobol=False, seed=seed)
+    try:
+        prod.simulate_1f(dc, vc, 2000, 0, False, seed)
+        simulated = True
+    except FinError as e:
+        simulated = False
+        mism = 'length of fwd0' in str(getattr(e, '_message', e)) or 'length of fwd0' in str(e)
+        ctx.violation(f'IborLMMProducts.simulate_1f raises FinError ({getattr(e, "_message", e)}): it passes num_fwds = number of grid dates but a forward curve '
+                      'with one entry fewer, so the product can never simulate', cs,
+                      finding='C19/lmm-products-dates-vs-forwards-off-by-one' if mism else None, clause='callable')
+    if not simulated:
+        # install paths by hand (what simulate_1f documents: forwards between consecutive grid dates, caplet vols as gammas)
+        nf = len(prod.accrual_factors)
+        fwd_curve = np.array([dc.fwd_rate(prod.grid_dts[i - 1], prod.grid_dts[i], prod.float_dc_type) for i in range(1, nf + 1)], dtype=float).ravel()
+        gam = np.array([0.0] + [sig] * (nf - 1))
+        prod.num_fwds, prod.num_paths, prod.fwd_curve = nf, 2000, fwd_curve
+        prod.fwds = L.lmm_simulate_fwds_1f(nf, 2000, 0, fwd_curve, gam, prod.accrual_factors, 0, seed)
+    FID = 'C19/lmm-products-dates-vs-forwards-off-by-one'
+    K = float(np.mean(prod.fwd_curve))
+    nfc = len(prod.fwds[0])
+    for cap_md, label, ndates in ((md, 'product maturity', len(prod.grid_dts)), (prod.grid_dts[-2], 'one period before the product maturity', len(prod.grid_dts) - 1)):
+        for typ, ic in ((FinCapFloorTypes.CAP, 1), (FinCapFloorTypes.FLOOR, 0)):
+            c2 = dict(cs, fn='IborLMMProducts.value_cap_floor', cap_floor_type=typ.name, strike=K, cap_maturity=str(cap_md), which=label, notional=1000.0)
+            try:
+                v = float(prod.value_cap_floor(vd, cap_md, typ, K, FrequencyTypes.SEMI_ANNUAL, DayCountTypes.THIRTY_E_360, 1000.0))
+            except FinError as e:
+                msg = str(getattr(e, '_message', e))
+                ctx.violation(f'IborLMMProducts.value_cap_floor raises FinError ({msg}) for a cap/floor to the {label}: it passes the number of cap DATES as '
+                              'the number of forwards', c2, finding=FID if ('num_fwds > max_fwds' in msg and ndates > nfc) else None, clause='callable')
+                continue
+            except Exception as e:  # noqa: BLE001
+                ctx.violation(f'IborLMMProducts.value_cap_floor raises {type(e).__name__} ({e})', c2, clause='callable')
+                continue
+            lets = safe_cap(ctx, L, nfc, prod.num_paths, K, prod.fwd_curve, prod.fwds, prod.accrual_factors, ic, 'IborLMMProducts paths')
+            if lets is None:
+                continue
+            want = 1000.0 * float(np.sum(lets[:ndates - 1]))          # a cap over ndates dates has ndates-1 caplets
+            with_extra = 1000.0 * float(np.sum(lets[:ndates]))
+            if not abs(v - want) <= 1e-9 * max(abs(want), 1e-9):
+                ctx.violation('IborLMMProducts.value_cap_floor is not notional times the sum of the cap/floorlets up to the cap maturity (each validated '
+                              'against Black): it prices one cap/floorlet beyond the maturity', dict(c2, returned=v, expected=want, with_one_extra_caplet=with_extra),
+                              finding=FID if abs(v - with_extra) <= 1e-9 * max(abs(with_extra), 1e-9) else None, clause='cap-vs-black')
+    ctx.count('lmm:IborLMMProducts', 5, 5)
 
 
 # ================================================================================================ default times
